@@ -9,7 +9,7 @@ namespace tbfsim {
 template <class Cfg> struct AlgoSelect<Cfg, EX_OMP> { using type = TbfOpenmpAlgorithm<typename Cfg::Real, Probe<typename Cfg::Inner>, typename Cfg::Space>; };
 template <class Cfg> struct AlgoSelect<Cfg, EX_OMP_TSM> { using type = TbfOpenmpAlgorithmTsm<typename Cfg::Real, Probe<typename Cfg::Inner>, typename Cfg::Space>; };
 
-struct CfgWeightPeriodic {
+struct CfgWeightPeriodic : CfgCommon {
     using Real = double;
     using Space = TbfDefaultSpaceIndexTypePeriodic<double>;
     static constexpr long NbData = 4;
